@@ -131,12 +131,28 @@ def gen_reference(rng, wide=False):
             for row in clusters[k]:
                 row[g] = 0
         f32 = True
-    zero_floors = rng.random() < 0.15
+    faint = (not f32) and rng.random() < 0.12
+    if faint:
+        # a gene below 1 (log2 CPM) in every cell of two clusters - penetrance 0 in both, differential penetrance 0 - but
+        # clearly and significantly brighter in one of them: with a penetrance floor of 0 only the differential floor
+        # keeps it out.  Binary fractions: the per-cluster sums are whole numbers.
+        g = rng.randrange(ng)
+        dim = [[rng.choice([0, 0, 0, 1, 1, 2]) for _ in range(ng)] for _ in range(6)]
+        dark = [[rng.choice([0, 0, 0, 1, 1, 2]) for _ in range(ng)] for _ in range(6)]
+        for i, row in enumerate(dim):
+            row[g] = [0.5, 0.75, 0.875, 0.875, 0.5, 0.5][i]
+        for row in dark:
+            row[g] = 0
+        clusters[0], clusters[1] = dim, dark
+        T['q1min'] = (0, 1)
+        T['foldmin'] = rng.choice([(0, 1), (1, 2)])
+        exact = False
+    zero_floors = (not faint) and rng.random() < 0.15
     if zero_floors:
         # every minimum floor at 0 (legal: the strict thresholds stay above), a short gene list, approximate mode
         T['q1min'] = T['qdiffmin'] = T['foldmin'] = (0, 1)
         exact = False
-    conf = {'T': T, 'exact': exact, 'n_valid': rng.choice([1, 2, 3, 5, 30]) if not zero_floors else rng.choice([5, 30]),
+    conf = {'T': T, 'exact': exact, 'n_valid': rng.choice([1, 2, 3, 5, 30]) if not (zero_floors or faint) else rng.choice([5, 30]),
             'gene_list': sorted(rng.sample(range(ng), rng.randint(1, ng) if not zero_floors else rng.randint(1, 2)))
             if (rng.random() < 0.3 or zero_floors) else None,
             'P': rng.randint(1, 3), 'max_gb': rng.choice([1, 1e-3, 1e-7]), 'pad_list': rng.random() < 0.5, 'f32': f32}
